@@ -349,9 +349,12 @@ def r19_5(ctx, rep, roles, meths):
         ("transport::channel", "diverge:assert_eq"): (c09.A, "in-process simulation transport self-check (announced length = written length, C08/R08.3)"),
         ("transport::channel", "diverge:assert"): (c09.A, "in-process simulation transport self-check (fully consumed, C08/R08.6)"),
         ("transport::channel::InProcessSocket", "call:unwrap"): (c09.A, "in-process simulation transport"),
+        ("transport::utils::SocketWithDelay<D>", "call:from_secs_f64"): (c09.A, "delay-injection wrapper (TransportExt::delay): the delay is sampled from the distribution the test author supplies; a negative / non-finite sample is a misuse of the wrapper, not a transport fault"),
+        ("transport::channel::Statistics", "assert:Overflow(Add)"): (c09.A, "in-process simulation transport: u64 running totals of bytes / messages sent locally (not wire integers)"),
     }
     counts = {("failure_detector::FailureDetector", "call:add"): 2, ("transport::channel::ChannelTransport", "call:unwrap"): 8,
-              ("transport::channel", "call:unwrap"): 2}
+              ("transport::channel", "call:unwrap"): 2, ("transport::channel::Statistics", "assert:Overflow(Add)"): 2,
+              ("transport::utils::SocketWithDelay<D>", "call:from_secs_f64"): 1}
     c09.r09_inventory(ctx, rep, roles, P="C19", ent=ent, rule_id="R19.5", extra_table=extra, extra_counts=counts)
 
 
@@ -376,6 +379,18 @@ def r19_7(ctx, rep):
     from ..core import cfg as cfgmod
     fx = ctx.fx
     n = 0
+    # private helpers the pinned tree does not have that serialise a whole datagram into the `&mut Vec<u8>` they are given
+    # (`fn encode_message(msg, buf: &mut Vec<u8>) -> &[u8]`): calling one with a borrowed field is serialising into that field
+    ser_helpers = set()
+    for h in getattr(fx, "new_helpers", ()):
+        hf = fx.fns[h]
+        if len([i for i in hf.get("inputs") or [] if i.replace("'a ", "").replace("'_ ", "") == "&mut std::vec::Vec<u8>"]) != 1:
+            continue
+        for b in hf.get("blocks") or []:
+            t = b.get("term") or {}
+            c = cfgmod.term_callee(t) if t.get("k") == "call" else None
+            if c and (c[1] or c[0]).endswith("Serializable>::serialize") and (c[1] or c[0]).startswith("<message::ChitchatMessage as "):
+                ser_helpers.add(h)
     for f in fx.fns.values():
         blocks = f.get("blocks") or []
         sers, clears = [], []
@@ -393,7 +408,7 @@ def r19_7(ctx, rep):
             hit = [mb[l] for l in argl if l in mb]
             if not hit:
                 continue
-            if raw.endswith("Serializable>::serialize") and raw.startswith("<message::ChitchatMessage as "):
+            if (raw.endswith("Serializable>::serialize") and raw.startswith("<message::ChitchatMessage as ")) or raw in ser_helpers:
                 sers.append((bi, hit[0]))     # a whole datagram
             elif name.split("::")[-1] in ("clear",) or (name.split("::")[-1] == "truncate"):
                 clears.append((bi, hit[0]))
@@ -414,7 +429,7 @@ def r19_7(ctx, rep):
         for b in f.get("blocks") or []:
             t = b.get("term") or {}
             c = cfgmod.term_callee(t) if t.get("k") == "call" else None
-            if c and "serialize::Serializable" in (c[1] or c[0]) and "::serialize" in (c[1] or c[0]):
+            if c and (("serialize::Serializable" in (c[1] or c[0]) and "::serialize" in (c[1] or c[0])) or (c[1] or c[0]) in ser_helpers):
                 found += 1
     rep.obligation(found >= 1, "C19/R19.7/anchor-lost/udp-send", "no serialisation of the outgoing message found in UdpSocket::send", None,
                    sample="UdpSocket::send serialises the message (%d call)" % found)
